@@ -92,6 +92,10 @@ func (a *extraAttribute) deserialize(b []byte) (int, error) {
 		return 0, ErrCorruptedData
 	}
 
+	if extraLen := int(binary.BigEndian.Uint16(b)); extraLen > maxExtraLen || len(b) < sszSize+extraLen {
+		return 0, ErrCorruptedData
+	}
+
 	a.extra = make([]byte, binary.BigEndian.Uint16(b))
 	copy(a.extra, b[sszSize:])
 
